@@ -4,7 +4,7 @@ CONSTANTS
  NSlots = 2  MaxStreams = 3  MaxRecs = 2
  USizes <- TinyU  VSizes <- TinyV  Pads <- TinyP  FlagSet <- TinyF
  Volume = FALSE
- MinSteps = 1  MaxSteps = 3
+ MinSteps = 1  MaxSteps = 4
 VIEW View
 CONSTRAINT Emit
 CHECK_DEADLOCK FALSE
